@@ -1251,6 +1251,7 @@ func familyLong(s *hlib.Suite, r *hlib.Rng, n int) {
 func main() {
 	cfg := hlib.ParseFlags()
 	s := hlib.NewSuite(cfg, "csv")
+	defer s.FinishOnPanic()
 	s.Header = "From QF Require Import Base.Prelude Base.CaseLib Gen.GenConsts Model.FastCsv Model.CsvSpec Model.CsvWrite Model.CsvRead Corr.CsvCorr.\nLocal Open Scope N_scope.\n"
 	s.CaseType = "csv_case"
 	s.CheckFn = "check_csv"
